@@ -61,6 +61,7 @@ class Contract:
         self.notes = []
         self.props = []
         self.receivers = None
+        self.fuel = {}
         for st in node.body:
             if isinstance(st, ast.FunctionDef):
                 expr = fn_return_expr(st)
@@ -97,6 +98,8 @@ class Contract:
                     self.props = ast.literal_eval(st.value)
                 elif n == "receivers":
                     self.receivers = ast.literal_eval(st.value)
+                elif n == "fuel":
+                    self.fuel = ast.literal_eval(st.value)
                 elif n == "loops":
                     for k, v in zip(st.value.keys, st.value.values):
                         self.loops[k.value] = self.parse_loop(k.value, v)
@@ -356,6 +359,8 @@ class World:
                     t = self.ann_to_type(non_none[0])
                     if has_none and t in ("str", "int", "bool"):
                         return ("opt", t)
+                    if has_none and isinstance(t, tuple) and t[0] == "ref":
+                        return ("ref", t[1], True)
                     return t
                 return "dyn"
         return ("ref", None)
@@ -453,7 +458,11 @@ class World:
         return f"f:{d[0]}.{attr}", d[1]
 
     def field_nullable(self, fkey):
-        return fkey[2:] in self.nullable
+        if fkey[2:] in self.nullable:
+            return True
+        cname, attr = fkey[2:].split(".", 1)
+        d = self.declared_field(cname, attr)
+        return d is not None and isinstance(d[1], tuple) and len(d[1]) > 2
 
     def all_fields_of(self, cname):
         out = []
@@ -603,8 +612,11 @@ class World:
             self.spec_ufs[name] = ufs
         res_terms = [uf(*all_terms) for uf in ufs]
         res = self.spec_value(res_terms, sf.ret)
-        if ctx.fuel > 0 and not sf.axioms_only:
-            bv = fv.eval(body, Ctx(env, ctx.heap, spec=True, fuel=ctx.fuel - 1))
+        fuel = ctx.fuel
+        if fv.contract is not None and name in fv.contract.fuel:
+            fuel = min(fuel, fv.contract.fuel[name])     # definitions the proof does not need stay folded
+        if fuel > 0 and not sf.axioms_only:
+            bv = fv.eval(body, Ctx(env, ctx.heap, spec=True, fuel=fuel - 1))
             bterms = self.spec_arg_terms(bv, sf.ret, ctx, fv)
             for rt, bt in zip(res_terms, bterms):
                 if z3.is_array(rt):
@@ -656,6 +668,7 @@ class World:
             start, stop = (z3.IntVal(0), a[0].t) if len(a) == 1 else (a[0].t, a[1].t)
             n = z3.If(stop > start, stop - start, z3.IntVal(0))
         idx = z3.Int(f"ci!{next(fv.ctr)}")
+        fv.mark_nonneg(idx)
         env = dict(ctx.env)
         if src is not None:
             if arr is None:
@@ -1057,17 +1070,19 @@ class World:
         args = [fv.eval(a, ctx) for a in e.args]
         t = s.t
         if m in ("lstrip", "rstrip", "strip"):
+            cs_name = None
             if args:
                 if not z3.is_string_value(args[0].t):
                     raise VCError("strip with a non-literal character set")
-                cs = E.re_charset(list(args[0].t.as_string()))
+                cs_name = "".join(sorted(set(args[0].t.as_string())))
+                cs = E.re_charset(list(cs_name))
             else:
                 cs = E.re_ws()
             res = t
             if m in ("lstrip", "strip"):
-                res = self.strip_side(res, cs, True, fv)
+                res = self.strip_side(res, cs, True, fv, cs_name)
             if m in ("rstrip", "strip"):
-                res = self.strip_side(res, cs, False, fv)
+                res = self.strip_side(res, cs, False, fv, cs_name)
             return mk_str(res)
         if m == "startswith":
             return mk_bool(z3.PrefixOf(args[0].t, t))
@@ -1097,9 +1112,19 @@ class World:
             return self.apply_spec("join", [s, V(("listval", "str"), (n, arr))], ctx, fv)
         raise VCError(f"str method {m} not supported at {fv.where(e)}")
 
-    def strip_side(self, t, cs, left, fv):
-        p = z3.String(f"strip_p!{next(fv.ctr)}")
-        r = z3.String(f"strip_r!{next(fv.ctr)}")
+    def strip_side(self, t, cs, left, fv, cs_name=None):
+        """l/rstrip as a *function* of (string, character set): result r and stripped part p are applications of
+        uninterpreted symbols, constrained by the defining decomposition (unique, so this is a definition)."""
+        tag = ("l" if left else "r") + "strip"
+        key = z3.StringVal(cs_name if cs_name is not None else "<ws>")
+        fr = z3.Function("py_" + tag, StrS, StrS, StrS)
+        fp = z3.Function("py_" + tag + "_cut", StrS, StrS, StrS)
+        p = fp(t, key)
+        r = fr(t, key)
+        if not getattr(fv, "reveal_strip", False):
+            # opaque by default: the defining decomposition is only added where a contract asks for it
+            # (strip_def(...)), obligations that merely compare two applications do not need it
+            return r
         if left:
             fv.assume(z3.And(t == z3.Concat(p, r), z3.InRe(p, z3.Star(cs)),
                              z3.Or(r == z3.StringVal(""), z3.Not(z3.InRe(z3.SubString(r, 0, 1), cs)))))
@@ -1247,6 +1272,17 @@ class World:
             facts.append(z3.Select(fv.list_arr(l, ctx.heap), i) == z3.StringVal(x.value))
         return mk_bool(conj(facts))
 
+    def bi_strip_def(self, e, ctx, fv):
+        """spec: strip_def(s.lstrip(chars)) - evaluates its argument with the defining axioms of the strip
+        functions switched on (the decomposition s = cut + rest, cut in chars*, rest not starting in chars)"""
+        saved = getattr(fv, "reveal_strip", False)
+        fv.reveal_strip = True
+        try:
+            fv.eval(e.args[0], ctx)
+        finally:
+            fv.reveal_strip = saved
+        return mk_bool(True)
+
     def bi_is_enum_value(self, e, ctx, fv):
         v = fv.eval(e.args[0], ctx)
         if v.kind() == "dyn":
@@ -1288,6 +1324,8 @@ class World:
             raise VCError("forall/exists: third argument must be a one-parameter lambda")
         name = lam.args.args[0].arg
         q = z3.Int(f"{name}!q{next(fv.ctr)}")
+        if fv.is_nonneg(lo):
+            fv.mark_nonneg(q)
         env = dict(ctx.env)
         env[name] = mk_int(q)
         sub = Ctx(env, ctx.heap, spec=True, old=ctx.old, result=ctx.result, fuel=ctx.fuel)
@@ -1410,8 +1448,16 @@ class World:
             terms = self.spec_arg_terms(a, pty, ctx, fv)
             env[pn] = self.spec_value(terms, pty)
         sub = Ctx(env, ctx.heap, spec=True, fuel=ctx.fuel)
-        pre = conj([fv.eval_spec_bool(r, sub) for r in lm.requires])
-        post = conj([fv.eval_spec_bool(r, sub) for r in lm.ensures])
-        fv.assume(z3.Implies(pre, post))
+        if getattr(fv, "proving", False):
+            # a lemma call in a clause that is being proved: its precondition is an obligation of its own,
+            # then the conclusion is available (keeps each query small)
+            for i, r in enumerate(lm.requires):
+                fv.oblige(fv.eval_spec_bool(r, sub), "lemma-pre", f"{name}.{i}", lm.path)
+            for r in lm.ensures:
+                fv.assume(fv.eval_spec_bool(r, sub))
+        else:
+            pre = conj([fv.eval_spec_bool(r, sub) for r in lm.requires])
+            post = conj([fv.eval_spec_bool(r, sub) for r in lm.ensures])
+            fv.assume(z3.Implies(pre, post))
         self.used_trusted.setdefault(fv.label, set()).add(f"lemma:{name}" + (" (trusted)" if lm.trusted else ""))
         return mk_bool(True)
